@@ -2334,6 +2334,7 @@ func lemmaForwardSession(raw *rawEnvelope) (e *Session, e3 *Session, accepted bo
 //@   ensures result.sessionID == "" && result.localNode == Node{} && result.remoteNode == Node{}
 //@   ensures !result.startRcv.fired && !result.stopRcv.fired
 //@   ensures [C06] @streamsopen rcvReady(result)
+//@   ensures [C06] @sessionslot chancap(result.inSesChan) >= 1  ## the receiver adopts a terminal session only after parking it on this stream: with a slot of its own that never waits for a reader, so the state (which every send consults) follows the peer's finished/failed whatever buffer size the application chose
 
 //@ func NewClientChannel :: (t, bufferSize) (result)
 //@   props C08
